@@ -13,7 +13,8 @@ RULE = ('Same generator family as C04 (limits often not binding, chains hanging 
         'reaching it counts only after >= 10 further idle polling rounds and >= 20 s (normal: < 50 ms). Non-trivial = a resting '
         'point where a task unblocked by the previous completion batch is running, or where a queued task took a freed slot. '
         'Distinct = hash of (engine, spec). Engine after-abort: run 1 aborts (continue_on_failure=False) with tasks of limited types in flight, run 2 in the same process (same or new Lab) must '
-        'again use all free capacity (same oracle on run 2). Engine fork+stagger: k = 6-8 gated tasks fill max_workers with up to k-1 tasks queued behind them (or dependents of the first, '
+        'again use all free capacity (same oracle on run 2). Engine fork+linger: a task whose run() has returned but whose process stays alive (non-daemon helper thread) until a task made runnable by its completion '
+        'has started; violation if that does not happen within 6 s, three executions in a row. Engine fork+stagger: k = 6-8 gated tasks fill max_workers with up to k-1 tasks queued behind them (or dependents of the first, '
         'with spare slots); a helper thread releases the k one by one every 0.4 s - the first optionally dies outright - while the runner is polled with the 0.5 s '
         'timeout Lab itself uses; just before each release (from the third on) the number of queued tasks inside run() is compared with the capacity freed by the '
         'steps released at least 0.4 s earlier (normal latency < 50 ms). Violation only if the count falls short at EVERY sampling instant (>= 4, spanning >= 1.2 s) '
@@ -131,6 +132,53 @@ def check_stagger(spec: dict) -> core.CaseResult:
     return core.CaseResult(findings=findings, nontrivial=True, labels=tuple(labels), summary=obs.summary())
 
 
+def linger_strategy():
+    """A task whose run() has returned but whose process lives on (a non-daemon helper thread) until a task that its completion
+    makes runnable has started."""
+    from hypothesis import strategies as st
+
+    @st.composite
+    def gen(draw):
+        dependent = draw(st.booleans())
+        n_q = draw(st.integers(1, 3))
+        n_other = draw(st.integers(0, 2))
+        qnames = [f'q{j}' for j in range(n_q)]
+        nodes = [{'id': 0, 'type': draw(st.sampled_from(['NN', 'N1', 'Z'])), 'name': 'p', 'mode': 'linger', 'read': True, 'payload': qnames, 'deps': {'s': None}}]
+        for j in range(n_q):
+            nodes.append({'id': len(nodes), 'type': draw(st.sampled_from(['NN', 'N2'])), 'name': qnames[j], 'mode': 'ok', 'read': draw(st.booleans()), 'payload': j,
+                          'deps': {'list': [{'ref': 0, 'fresh': False}]} if dependent else {'s': None}})
+        for j in range(n_other):
+            nodes.append({'id': len(nodes), 'type': 'NN', 'name': f'o{j}', 'mode': 'ok', 'read': True, 'payload': j, 'deps': {'s': None}})
+        # dependent: spare workers; otherwise everything else is queued behind the single worker that p occupies first
+        lab = {'backend': 'fork', 'max_workers': draw(st.sampled_from([2, 3, None])) if dependent else 1, 'continue_on_failure': True, 'bust_cache': False,
+               'storage': draw(st.sampled_from(['local', 'none'])), 'displays': draw(st.booleans()), 'context': {}}
+        order = [0] + list(range(1, len(nodes))) if not dependent else list(draw(st.permutations(list(range(len(nodes))))))
+        return {'nodes': nodes, 'requested': [{'ref': i, 'fresh': False} for i in order], 'lab': lab, 'pre_cached': [], 'schedule': [], 'linger': True,
+                'dependent': dependent}
+    return gen()
+
+
+def check_linger(spec: dict) -> core.CaseResult:
+    from pbt import dagrun
+    timeouts = 0
+    obs = None
+    for attempt in range(3):
+        obs = dagrun.execute_case(spec, deadline_s=60)
+        if obs.timeout:
+            return dagprop.result(obs, [], False, ['engine=linger'], hang_is_violation=True, prop='C05')
+        if not any(r[0] == 'M' and len(r) > 1 and r[1] == 'linger-timeout' for r in obs.trace):
+            break
+        timeouts += 1
+    findings = []
+    if timeouts == 3:
+        from pbt.universe import vu
+        findings.append(core.Finding('C05:fork:runnable-task-waits-for-a-finished-tasks-process-to-exit',
+                                     f'p has returned its result, yet none of {spec["nodes"][0]["payload"]} was started within {vu.LINGER_S} s while '
+                                     f'p\'s process was still alive (normal: < 50 ms); 3 executions in a row'))
+    return core.CaseResult(findings=findings, nontrivial=True, labels=('engine=linger', f'dependent={spec["dependent"]}', f'attempts={min(timeouts + 1, 3)}'),
+                           summary=obs.summary())
+
+
 def abort_spec(backend: str):
     """Run 1 aborts (continue_on_failure=False, a failing task) while tasks of max_parallel-limited types are still in flight;
     run 2 (same Lab object or a new one, same process) requests other tasks of those types."""
@@ -182,6 +230,7 @@ def plan(tier: str) -> list[dict]:
                                  gated_fork=(4, 12, 400), gated_spawn=(1, 3, 60))) + dagprop.exhaustive_jobs(tier, 4)
     jobs += [{'engine': 'executor-machine', 'n': 12 if q else 400, 'steps': 14 if q else 30, 'hashseed': i} for i in range(2)]
     jobs += [{'engine': 'after-abort:controlled', 'n': 80 if q else 2500, 'hashseed': 5}, {'engine': 'after-abort:fork', 'n': 8 if q else 300, 'hashseed': 6}]
+    jobs += [{'engine': 'fork+linger', 'n': 10 if q else 300, 'hashseed': 7}]
     jobs += [{'engine': 'fork+stagger', 'n': 6 if q else 60, 'hashseed': 3 + i} for i in range(1 if q else 2)]
     return jobs
 
@@ -190,6 +239,9 @@ def run_job(rec: core.Recorder, job: dict, seed: int) -> None:
     if job['engine'].startswith('after-abort:'):
         b = job['engine'].split(':')[1]
         core.run_hypothesis(rec, job['engine'], abort_spec(b), check_after_abort, max_examples=job['n'], seed=seed, shrink=(b == 'controlled'))
+        return
+    if job['engine'] == 'fork+linger':
+        core.run_hypothesis(rec, 'fork+linger', linger_strategy(), check_linger, max_examples=job['n'], seed=seed, shrink=False)
         return
     if job['engine'] == 'fork+stagger':
         core.run_hypothesis(rec, 'fork+stagger', stagger_strategy(), check_stagger, max_examples=job['n'], seed=seed, shrink=False)
@@ -209,6 +261,8 @@ def run_job(rec: core.Recorder, job: dict, seed: int) -> None:
 def replay(record: dict) -> core.CaseResult:
     if 'stagger' in record['case']:
         return check_stagger(record['case'])
+    if record['case'].get('linger'):
+        return check_linger(record['case'])
     if 'second' in record['case']:
         return check_after_abort(record['case'])
     return check(record['case'])
